@@ -32,6 +32,7 @@ def run(tier, seed, replay=None):
         return ck.finish()
     ck.tie("harness builds and runs against the current tree", True)
     dist = {}
+    nconf = 0
     for (key, case, intents, inj, ps), ob in zip(cases, obs):
         res = l1.mon_c01(case, intents, ob)
         # dropped or answered; probes processed normally
@@ -43,6 +44,18 @@ def run(tier, seed, replay=None):
         dist[k] = dist.get(k, 0) + 1
         ck.count([str(x) for x in key], True)
         for sig, msg, i in res[:1]:
+            if not replay and nconf < 12:
+                nconf += 1
+
+                def again(ob2, case=case, intents=intents, inj=inj, ps=ps):
+                    r2 = l1.mon_c01(case, intents, ob2)
+                    for s3, m3, i3 in l1.mon_c02(case, intents, ob2):
+                        if i3 == inj or i3 >= ps:
+                            r2.append(("after-datagram:" + s3 if i3 >= ps else "datagram:" + s3, m3, i3))
+                    return r2
+                if not confirmed(binary, case, sig, again):
+                    ck.notes["unconfirmed_failures"] = ck.notes.get("unconfirmed_failures", 0) + 1
+                    continue
             ck.fail(sig, msg, {"input": case, "intents": intents, "inject": inj, "probe_start": ps, "key": [str(x) for x in key],
                                "impl_event": ob[i] if i < len(ob) else None})
     # the model takes the datagram as go-pfcp decodes it, so it is evaluated on mutated and garbage datagrams alike
